@@ -328,7 +328,15 @@ func c01Batch(c *Ctx, cs Case) {
 		desc[i] = fmt.Sprintf("%d bytes, %d after the last section, table %d", len(imgs[i]), s.Trailing, len(s.CertBodies))
 	}
 	mode := int(cs.I("mode"))
-	c.Count(cs.Key(), true, fmt.Sprintf("batch/images=%d/mode=%d", len(specs), mode))
+	// modes 2 and 3 are modes 0 and 1 of a process that also LOOKS AT the signatures of what it parses and does the
+	// padding arithmetic of a certificate table itself: right after each Parse the object is asked for its
+	// Signatures() (the walk over the certificate table, alignment bytes included - they are excluded from every
+	// digest, whatever they hold), and the caller asks the exported PaddingBytes for the padding of that file length
+	// and fills the slice it is handed (it is the caller's: a buffer to build a padded copy in). Neither is an
+	// operation on another image: the digests stay what they are.
+	listing := mode >= 2
+	mode %= 2
+	c.Count(cs.Key(), true, fmt.Sprintf("batch/images=%d/mode=%d/listing=%v", len(specs), mode, listing))
 	c.Sample(cs)
 	k := uint32(cs.I("ask"))
 	parsed := make([]*authenticode.PECOFFBinary, len(specs))
@@ -354,7 +362,7 @@ func c01Batch(c *Ctx, cs Case) {
 					obs += fmt.Sprintf(" (the %v digest of image %d)", h, j)
 				}
 			}
-			fail(fmt.Sprintf("%d images parsed one after the other (mode %d): the %v digest of image %d (%s), asked %s, is not that of the specification's hash input of that image", len(specs), mode, h, i, desc[i], when), obs, hx(want))
+			fail(fmt.Sprintf("%d images parsed one after the other (mode %d, signatures listed and padding computed by the caller after each Parse: %v): the %v digest of image %d (%s), asked %s, is not that of the specification's hash input of that image", len(specs), mode, listing, h, i, desc[i], when), obs, hx(want))
 		}
 	}
 	for i := range specs {
@@ -362,6 +370,23 @@ func c01Batch(c *Ctx, cs Case) {
 		if pan, _ := safely(func() { parsed[i], err = authenticode.Parse(c01Reader(imgs[i])) }); pan || err != nil {
 			fail(fmt.Sprintf("Parse failed on well-formed image %d of a batch of %d", i, len(specs)), fmt.Sprint(pan, err), "")
 			return
+		}
+		if listing {
+			var nsig int
+			var serr error
+			if pan, _ := safely(func() {
+				sl, e := parsed[i].Signatures()
+				nsig, serr = len(sl), e
+			}); pan || serr != nil || nsig != len(specs[i].CertBodies) {
+				fail(fmt.Sprintf("Signatures() of well-formed image %d of a batch of %d does not list the %d entries of its certificate table", i, len(specs), len(specs[i].CertBodies)), fmt.Sprint(pan, serr, nsig), "")
+			}
+			safely(func() {
+				pad, _ := authenticode.PaddingBytes(len(imgs[i]), 8)
+				for x := range pad {
+					pad[x] = 0xA5 ^ byte(x)
+				}
+			})
+			c.Class(fmt.Sprintf("batch/listing/table-entries=%d/alignment-bytes-not-zero=%v/file-length-mod-8=%d", len(specs[i].CertBodies), specs[i].CertPad && len(specs[i].CertBodies) > 0, len(imgs[i])%8))
 		}
 		if mode == 1 {
 			for j := 0; j <= i; j++ {
@@ -709,10 +734,33 @@ func c01Gen(c *Ctx) {
 		if i%2 == 0 && s.Trailing == 0 {
 			s.Trailing = []int{1, 7, 8, 9, 1 + r.Intn(300), 300 + r.Intn(4000)}[r.Intn(6)]
 		}
+		mode := i % 4
+		kinds := 5
+		if mode >= 2 {
+			// the batches whose images are also listed (Signatures) start, two times out of three, from an image with a
+			// certificate table whose entries do not end on an 8-byte boundary and whose alignment bytes are as found
+			// on disk (not zero); the followers may then also be that image without its table
+			kinds = 7
+			if i%3 != 0 {
+				if len(s.CertBodies) == 0 {
+					s.CertBodies = []int{1 + r.Intn(1500)}
+				}
+				for j := range s.CertBodies {
+					if (8+s.CertBodies[j])%8 == 0 {
+						s.CertBodies[j] += 1 + r.Intn(7)
+					}
+				}
+				s.CertPad = true
+			}
+		}
 		images := []interface{}{specCase(s)}
 		for n := 1 + r.Intn(3); n > 0; n-- {
 			t := s
-			switch r.Intn(5) {
+			switch r.Intn(kinds) {
+			case 5, 6: // the same image without its certificate table, with another amount of data after the last section
+				t.CertBodies, t.CertPad = nil, false
+				t.Seed = r.Int63()
+				t.Trailing = []int{1, 7, 9, 1 + r.Intn(300), 300 + r.Intn(4000), s.Trailing}[r.Intn(6)]
 			case 0: // the same layout, other contents
 				t.Seed = r.Int63()
 			case 1, 2: // ... and another amount of data after the last section
@@ -724,7 +772,7 @@ func c01Gen(c *Ctx) {
 			}
 			images = append(images, specCase(t))
 		}
-		c01Eval(c, Case{"op": "batch", "images": images, "mode": int64(i % 2), "ask": int64(r.Intn(1 << 20))})
+		c01Eval(c, Case{"op": "batch", "images": images, "mode": int64(mode), "ask": int64(r.Intn(1 << 20))})
 	}
 	for i := 0; i < c.N(500, 30000) && c.NFailures() < 8; i++ {
 		s := genPeSpec(c, i%25 == 0)
@@ -749,7 +797,7 @@ func alignSpec(s peSpec, j, a int) peSpec {
 
 func init() {
 	register("C01", &PropDef{
-		Rule:   "generated well-formed images over {PE32, PE32+} x e_lfanew {0x40, 0x48, 0x80, random} x 5..16 data directories x 0..8 (thorough: ..96) sections x size classes {0,1,7,8,9,512,random, >32 KiB and >64 KiB every 25th image so that io.Copy's 32 KiB reads cross part boundaries} x part boundaries aligned to 32 KiB / 512 B in the hashed stream (section ends at offset = 12 mod the read size) x header order (random permutation / file order) x gaps x SizeOfHeaders slack x trailing length {0,1,7,8,9,random} x certificate table {none, 1, 2 entries} x, for every third image, a left-over directory-entry address with size 0 when there is no table {1, inside the headers, inside the sections, end of the sections, inside the trailing data, file end, padded file end, beyond the file, 2^32-1} x 3 machine types; the repository's binaries; per image ~25 stratified byte changes (header fields, checksum, directory entry, section table, slack, section boundaries, gaps, tail, certificate table); a changed image that is still well-formed and that Parse rejects counts as outside the domain only when debug/pe.NewFile itself rejects it, and a changed directory-entry byte is judged like any other excluded byte. Every image is also parsed once and asked for its digest six times on that one object, running through SHA-1/256/384/512 in an order chosen by the image and then repeating the first two; every answer is compared with that algorithm over the specification's hash input, every other returned slice is overwritten by the caller before the next call, and the remaining ones are held and must not change. Every image is also parsed once through a caller-supplied io.ReaderAt that fixes the interleaving of goroutines (sched.go) and asked for its digest by two or three goroutines AT THE SAME TIME (algorithms, possibly the same one twice, chosen by the image): the calls take turns at read granularity - the first call is parked inside its first or second read, later turns last 0..3 reads, a function of the image - and every one of the overlapping calls, and a call after them, must return its algorithm over the specification's hash input. And every image is parsed through a reader whose storage shrinks AFTER Parse (only the first L bytes remain readable, the read at the cut ending with io.EOF or with another error; L in {0, 1, n/4, n/2, 3n/4, n-9, n-1, two positions chosen by the image, the end of the hashed data and the one before, both ends of the certificate-table directory entry}): whatever Hash then reports must be nil or the specification digest of the image that was parsed (never the digest of the readable part), and the digest is reported again once the storage is whole. Half of the images (by a checksum of their bytes) are read through a conforming io.ReaderAt that reports io.EOF together with the read that reaches the end of the file. One image in six (by that checksum) is parsed through an io.SectionReader declared LARGER than the image (by 1, 7, 8, 4096, 2^40 bytes, or up to 2^63-1): its Size() is not the file length, reads behind the data end with io.EOF. SEVERAL IMAGES PARSED BEFORE ANY IS HASHED: 60 batches (thorough 3000) of 2..4 images are parsed one after the other and asked for their digests only afterwards (mode 0: all parsed, then every object asked for SHA-256 in an order chosen by the batch and then, backwards, for one of SHA-1/256/384/512; mode 1: after each Parse every object parsed so far is asked); the followers of the first image have the same layout with other contents, the same layout with another amount of data after the last section ({0,1,7,8,9, one less, one more, <300, 300..4300} bytes), are unrelated images, or are the same file again, and every second batch starts from an image with data after its last section; every answer must be that algorithm over the specification's hash input of ITS image, whatever was parsed between its Parse and its Hash. Non-trivial: image longer than 256 bytes / every flip / every batch; distinct = distinct specs, (image, position, mask) and batches.",
+		Rule:   "generated well-formed images over {PE32, PE32+} x e_lfanew {0x40, 0x48, 0x80, random} x 5..16 data directories x 0..8 (thorough: ..96) sections x size classes {0,1,7,8,9,512,random, >32 KiB and >64 KiB every 25th image so that io.Copy's 32 KiB reads cross part boundaries} x part boundaries aligned to 32 KiB / 512 B in the hashed stream (section ends at offset = 12 mod the read size) x header order (random permutation / file order) x gaps x SizeOfHeaders slack x trailing length {0,1,7,8,9,random} x certificate table {none, 1, 2 entries} x, for every third image, a left-over directory-entry address with size 0 when there is no table {1, inside the headers, inside the sections, end of the sections, inside the trailing data, file end, padded file end, beyond the file, 2^32-1} x 3 machine types; the repository's binaries; per image ~25 stratified byte changes (header fields, checksum, directory entry, section table, slack, section boundaries, gaps, tail, certificate table); a changed image that is still well-formed and that Parse rejects counts as outside the domain only when debug/pe.NewFile itself rejects it, and a changed directory-entry byte is judged like any other excluded byte. Every image is also parsed once and asked for its digest six times on that one object, running through SHA-1/256/384/512 in an order chosen by the image and then repeating the first two; every answer is compared with that algorithm over the specification's hash input, every other returned slice is overwritten by the caller before the next call, and the remaining ones are held and must not change. Every image is also parsed once through a caller-supplied io.ReaderAt that fixes the interleaving of goroutines (sched.go) and asked for its digest by two or three goroutines AT THE SAME TIME (algorithms, possibly the same one twice, chosen by the image): the calls take turns at read granularity - the first call is parked inside its first or second read, later turns last 0..3 reads, a function of the image - and every one of the overlapping calls, and a call after them, must return its algorithm over the specification's hash input. And every image is parsed through a reader whose storage shrinks AFTER Parse (only the first L bytes remain readable, the read at the cut ending with io.EOF or with another error; L in {0, 1, n/4, n/2, 3n/4, n-9, n-1, two positions chosen by the image, the end of the hashed data and the one before, both ends of the certificate-table directory entry}): whatever Hash then reports must be nil or the specification digest of the image that was parsed (never the digest of the readable part), and the digest is reported again once the storage is whole. Half of the images (by a checksum of their bytes) are read through a conforming io.ReaderAt that reports io.EOF together with the read that reaches the end of the file. One image in six (by that checksum) is parsed through an io.SectionReader declared LARGER than the image (by 1, 7, 8, 4096, 2^40 bytes, or up to 2^63-1): its Size() is not the file length, reads behind the data end with io.EOF. SEVERAL IMAGES PARSED BEFORE ANY IS HASHED: 60 batches (thorough 3000) of 2..4 images are parsed one after the other and asked for their digests only afterwards (mode 0: all parsed, then every object asked for SHA-256 in an order chosen by the batch and then, backwards, for one of SHA-1/256/384/512; mode 1: after each Parse every object parsed so far is asked); the followers of the first image have the same layout with other contents, the same layout with another amount of data after the last section ({0,1,7,8,9, one less, one more, <300, 300..4300} bytes), are unrelated images, or are the same file again, and every second batch starts from an image with data after its last section; every answer must be that algorithm over the specification's hash input of ITS image, whatever was parsed between its Parse and its Hash. Half of the batches (modes 2 and 3 = modes 0 and 1 with LISTING) belong to a process that also looks at the signatures of what it parses: right after each Parse the object is asked for Signatures() (which must list the entries of its table) and the caller asks the exported PaddingBytes(file length, 8) and fills the slice it gets with its own bytes; two of three of these batches start from an image with a certificate table whose entries do NOT end on an 8-byte boundary and whose alignment bytes are NOT ZERO (they are part of the excluded table; class alignment-bytes-not-zero), followed - besides the follower kinds above - by that image WITHOUT its table and with {1,7,9,<300,300..4300, the same} bytes after the last section (file length not a multiple of 8: the hash input ends in the zero padding); every digest must still be the specification's, whatever table was walked and whatever the caller did with its padding slice in between. Non-trivial: image longer than 256 bytes / every flip / every batch; distinct = distinct specs, (image, position, mask) and batches.",
 		Assume: []string{"debug/pe.NewFile accepts the generated headers (machine type from its whitelist, no symbol table, no relocations, section names not starting with '/')", "SHA-256 does not collide on the pre-images compared"},
 		Eval:   c01Eval, Gen: c01Gen,
 	})
